@@ -198,6 +198,22 @@ def strip_attrs_and_uses(src, report):
             if j < n and toks[j].text == '[':
                 close = match_close(toks, j)
                 name = toks[next_code(toks, j)].text
+                if name in ('serde', 'derive'):
+                    # the wire format of persisted / message types is an ASSUMED contract (A-SERDE, A-DERIVE): the
+                    # attributes that define it are recorded and compared with the audited baseline
+                    q = next_code(toks, close)
+                    while q < n and toks[q].text == '#':
+                        q = next_code(toks, match_close(toks, next_code(toks, q)))
+                    while q < n and toks[q].text in ('pub', '(', 'crate', ')'):
+                        q = next_code(toks, q)
+                    if q < n and toks[q].text in ('struct', 'enum'):
+                        q = next_code(toks, q)
+                    item = toks[q].text if q < n else '?'
+                    atxt = re.sub(r'\s+', '', src[toks[j].end:toks[close].start])
+                    if name == 'derive':
+                        kept = sorted(x for x in re.findall(r'\w+', atxt[len('derive'):]) if x in ('Serialize', 'Deserialize', 'PartialEq', 'Clone'))
+                        atxt = 'derive(%s)' % ','.join(kept)
+                    report.setdefault('wire_attrs', []).append('%s|%s|%s' % (report.get('_cur_mod', '?'), item, atxt))
                 if name in DROP_ATTRS:
                     end = toks[close].end
                     # swallow one following whitespace run
@@ -1556,6 +1572,181 @@ def weave(src, modpath, contracts, mode, report, used, vacuity_props=None):
     return text, tnames
 
 
+
+# --------------------------------------------------------------------------------------
+# R18: un-contracted same-module helper functions are inlined at their call sites
+# --------------------------------------------------------------------------------------
+def _result_err_type(ret_text):
+    """error type of a `Result<T, E>` / `StdResult<T>` return type text, or None"""
+    if ret_text is None:
+        return None
+    t = re.sub(r'\s+', '', ret_text)
+    if t.startswith('StdResult<'):
+        return 'StdError'
+    if not t.startswith('Result<') or not t.endswith('>'):
+        return None
+    inner = t[len('Result<'):-1]
+    depth = 0
+    for i, ch in enumerate(inner):
+        if ch in '<([':
+            depth += 1
+        elif ch in '>)]':
+            depth -= 1
+        elif ch == ',' and depth == 0:
+            return inner[i + 1:]
+    return None
+
+
+def inline_helpers(src, modpath, contracts, report):
+    """A free function of /repo that has no contract in /verif/contracts (a helper added after the contracts were
+    written) is inlined, verbatim, into the functions that call it, when the call has one of the two shapes for which
+    beta-reduction is exact:
+        helper(ARGS)?                    ->  ({ let (P1, ..) = (ARGS); BODY })?      [same error type; BODY has no
+                                                                                   `return` other than `return Err(..)`]
+        return helper(ARGS) / tail call  ->  { let (P1, ..) = (ARGS); BODY }        [same return type]
+    (`?` and `return Err(..)` inside BODY then leave the caller exactly as the helper's error would have through `?`).
+    The caller is thereby verified against the helper's real code instead of against nothing. Helpers of other shapes
+    (generic, methods, recursive, other call forms) stay as they are: callers are then undecided (runner)."""
+    counts = report.setdefault('rules', {})
+    for _round in range(3):
+        toks = lex(src)
+        fns, _ = scan_items(toks, modpath)
+        helpers = {}
+        for f in fns:
+            if f.qname in contracts or f.body_open is None or f.in_trait_impl:
+                continue
+            if f.qname.count('::') != modpath.count('::') + 1:
+                continue          # methods / nested items
+            after_name = next_code(toks, next_code(toks, f.kw))
+            if toks[after_name].text == '<':
+                continue          # generic
+            ptxt = src[toks[f.lparen].end:toks[f.rparen].start]
+            if 'impl ' in ptxt or 'self' in re.findall(r'\b\w+\b', ptxt)[:2]:
+                continue
+            # parameters: `[mut] name: Type`
+            pats = []
+            ok = True
+            depth = 0
+            cur = ''
+            parts = []
+            for ch in ptxt:
+                if ch in '<([':
+                    depth += 1
+                elif ch in '>)]':
+                    depth -= 1
+                if ch == ',' and depth == 0:
+                    parts.append(cur)
+                    cur = ''
+                else:
+                    cur += ch
+            if cur.strip():
+                parts.append(cur)
+            for part in parts:
+                m = re.match(r'\s*((?:mut\s+)?[A-Za-z_]\w*)\s*:\s*(.+?)\s*$', part, re.S)
+                if not m:
+                    ok = False
+                    break
+                pats.append((m.group(1), re.sub(r'\s+', ' ', m.group(2))))
+            if not ok or f.ret_text is None:
+                continue
+            body = src[toks[f.body_open].end:toks[f.body_close].start]
+            # recursion / early Ok-return
+            if re.search(r'(?<![\w.:])%s\s*\(' % re.escape(f.name), body):
+                continue
+            early_other = False
+            for k in range(f.body_open, f.body_close):
+                if toks[k].kind == 'ident' and toks[k].text == 'return':
+                    nx = next_code(toks, k)
+                    if toks[nx].text != 'Err':
+                        early_other = True
+            helpers[f.name] = {'f': f, 'pats': pats, 'body': body, 'err': _result_err_type(f.ret_text),
+                               'ret': re.sub(r'\s+', '', f.ret_text), 'early_other': early_other,
+                               'sites': 0, 'inlined': 0}
+        if not helpers:
+            return src
+        edits = []
+        for g in fns:
+            if g.body_open is None:
+                continue
+            g_err = _result_err_type(g.ret_text)
+            g_ret = re.sub(r'\s+', '', g.ret_text) if g.ret_text else None
+            k = g.body_open
+            while k < g.body_close:
+                t = toks[k]
+                if t.kind == 'ident' and t.text in helpers and t.text != g.name:
+                    pv = prev_code(toks, k)
+                    nx = next_code(toks, k)
+                    if toks[nx].text == '(' and toks[pv].text not in ('.', '::', 'fn'):
+                        h = helpers[t.text]
+                        h['sites'] += 1
+                        cl = match_close(toks, nx)
+                        after = next_code(toks, cl)
+                        # arguments split at top-level commas
+                        arg_list, depth, cur_a = [], 0, []
+                        q = next_code(toks, nx)
+                        a_start = None
+                        while q < cl:
+                            x = toks[q].text
+                            if a_start is None:
+                                a_start = toks[q].start
+                            if x in ('(', '[', '{'):
+                                depth += 1
+                            elif x in (')', ']', '}'):
+                                depth -= 1
+                            elif x == ',' and depth == 0:
+                                arg_list.append(src[a_start:toks[q].start].strip())
+                                a_start = None
+                            q = next_code(toks, q)
+                        if a_start is not None and src[a_start:toks[cl].start].strip():
+                            arg_list.append(src[a_start:toks[cl].start].strip())
+                        if len(arg_list) != len(h['pats']):
+                            k = cl + 1
+                            continue
+                        # all arguments are evaluated (and coerced to the parameter types) before any parameter name is bound
+                        bind = ''.join('let a18__%d: %s = %s; ' % (i, h['pats'][i][1], a) for i, a in enumerate(arg_list))
+                        bind += ''.join('let %s = a18__%d; ' % (h['pats'][i][0], i) for i in range(len(arg_list)))
+                        block = ('{ /*R18 inlined %s*/ let r18__: %s = { %s %s }; r18__ }'
+                                 % (t.text, h['f'].ret_text, bind, h['body']))
+                        if toks[after].text == '?' and h['err'] is not None and h['err'] == g_err and not h['early_other']:
+                            edits.append((t.start, toks[cl].end, '(' + block + ')'))
+                            h['inlined'] += 1
+                            k = cl + 1
+                            continue
+                        is_ret = toks[pv].text == 'return'
+                        is_tail = toks[after].text == '}' and after == g.body_close
+                        if (is_ret or is_tail) and g_ret is not None and g_ret == h['ret']:
+                            edits.append((t.start, toks[cl].end, block))
+                            h['inlined'] += 1
+                            k = cl + 1
+                            continue
+                k += 1
+        if not edits:
+            return src
+        # nested call sites (a helper calling a helper) are handled by the next round: drop overlapping edits
+        edits.sort()
+        clean, last_end = [], -1
+        for e in edits:
+            if e[0] >= last_end:
+                clean.append(e)
+                last_end = e[1]
+        # a helper all of whose call sites were inlined is no longer part of what is verified
+        all_kept = len(clean) == len(edits)
+        for name, h in helpers.items():
+            if h['sites'] and h['sites'] == h['inlined'] and all_kept:
+                f = h['f']
+                pk = prev_code(toks, f.kw)
+                start = toks[pk].start if pk >= 0 and toks[pk].text == 'pub' else toks[f.kw].start
+                clean.append((start, start, '#[verifier::external_body] /*@R18-INLINED: every call site carries the body*/ '))
+                report.setdefault('inlined_helpers', []).append('%s::%s' % (modpath, name))
+        counts['R18'] = counts.get('R18', 0) + sum(1 for e in clean if 'R18 inlined' in e[2])
+        src = apply_edits(src, clean)
+        if all_kept:
+            # one more round only if something may remain nested
+            if not any(h['inlined'] for h in helpers.values()):
+                break
+    return src
+
+
 # --------------------------------------------------------------------------------------
 # assembly
 # --------------------------------------------------------------------------------------
@@ -1776,9 +1967,11 @@ def generate(mode, out_path, vacuity_props=None, force_stub=()):
     for mp, f in mods:
         raw = open(f).read()
         s = strip_tests_and_docs(raw)
+        report['_cur_mod'] = mp
         s = strip_attrs_and_uses(s, report)
         s = rewrite_isolated(s, mp, report, force_stub)
         s = special_impls(s, mp, report)
+        s = inline_helpers(s, mp, contracts, report)
         s, tnames = weave(s, mp, contracts, mode, report, used, vacuity_props)
         s = s + derive_standins(mp, tnames)
         texts[mp] = s
@@ -1817,6 +2010,19 @@ def generate(mode, out_path, vacuity_props=None, force_stub=()):
     os.makedirs(os.path.dirname(out_path), exist_ok=True)
     open(out_path, 'w').write(out)
     del report['raw_common']
+    report.pop('_cur_mod', None)
+    # wire-format premise: serde attributes and the Serialize/Deserialize/PartialEq/Clone derives of every type, against
+    # the baseline audited with the assumptions A-SERDE / A-DERIVE
+    bp = os.path.join(VERIF, 'contracts', 'wire_baseline.json')
+    cur = sorted(report.get('wire_attrs', []))
+    if os.path.exists(bp):
+        base = sorted(json.load(open(bp)))
+        # ContractAction's rename style is modelled (D-f reads it), not assumed
+        cur = [x for x in cur if not x.startswith('common|ContractAction|serde(')]
+        base = [x for x in base if not x.startswith('common|ContractAction|serde(')]
+        report['wire_premise_changed'] = (['+ ' + x for x in cur if x not in base] + ['- ' + x for x in base if x not in cur])
+    else:
+        report['wire_premise_changed'] = ['no baseline file contracts/wire_baseline.json']
     # line map
     linemap = build_linemap(out)
     report['uncontracted'] = [f['qname'] for f in report['functions'] if not f['contracted']]
